@@ -300,7 +300,7 @@ def make_subs(P):
 
     L, S = P["L"], P["S"]
 
-    def h(which: bool, n: int, c1: int, c2: int, a1: int, a2: int, a3: int, a4: int, a5: int, a6: int, a7: int) -> str:
+    def h(which: bool, same: bool, n: int, c1: int, c2: int, a1: int, a2: int, a3: int, a4: int, a5: int, a6: int, a7: int) -> str:
         code, script = [c1, c2][:L], [a1, a2, a3, a4, a5, a6, a7][:S]
         n = fork_int(n, 1, 2)
         is_subs = fork_bool(which)
@@ -308,7 +308,10 @@ def make_subs(P):
         log = []
         inner = genlab.interp(code, log, ops=genlab.SIMPLE_OPS, maxdepth=0)
         if is_subs:
-            fs = [lambda name, doc: None, lambda name, doc: 1][:n]
+            f0 = lambda name, doc: None  # noqa: E731
+            fs = [f0, f0 if fork_bool(same) else (lambda name, doc: 1)][:n]  # the same callable may be subscribed twice
+            if n == 2 and fs[0] is fs[1]:
+                goal("same-callable-twice")
             gen = bpp.subs_wrapper(inner, {"all": fs[:1], "event": fs[1:]})
             inst, rem, who = "subscribe", "unsubscribe", "subs_wrapper"
         else:
@@ -428,7 +431,7 @@ register(Harness("c23_lazy", "C23", make_lazy, {"quick": dict(L=2, S=5, shards=1
                  symbolic="3 devices with solver-chosen ancestry; wrapped plan of L steps each in {read, set on device i, raise, return}; stage() "
                  "returns the root alone or with its descendants; driver script: S actions in {answer, device error, close}", require_exhaustive=True))
 register(Harness("c23_subs", "C23", make_subs, {"quick": dict(L=1, S=5, shards=16, **_Q), "thorough": dict(L=2, S=7, shards=20, **_TH)},
-                 goals=["installed", "two-installed", "closed"], functions=_fns,
+                 goals=["installed", "two-installed", "closed", "same-callable-twice"], functions=_fns,
                  symbolic="subs_wrapper / suspend_wrapper with 1-2 items; wrapped program L simple opcodes; " + _ACT, require_exhaustive=True))
 register(Harness("c23_during", "C23", make_during, {"quick": dict(L=3, S=6, shards=16, **_Q), "thorough": dict(L=5, S=10, shards=20, **_TH)},
                  goals=["started-after-open", "stopped-before-close"], functions=_fns,
